@@ -9,3 +9,60 @@ package frame
 //@ func (*codec).ConvertFromRawFrame
 //@   prop C04, C05
 //@   requires hdr: frame.Header != nil
+
+// ---- C20: frame mutators keep flags and body in step --------------------------------------------------------
+
+// Representation invariant of a frame: the header flags say exactly which optional body parts are present, the
+// header opcode is the message's opcode, and the compressed flag is never set for STARTUP, OPTIONS or READY.
+
+//@ spec frameInv(f *Frame) bool = f.Header != nil && f.Body != nil && f.Body.Message != nil && f.Header.Flags.Contains(primitive.HeaderFlagCustomPayload) == (len(f.Body.CustomPayload) > 0) && f.Header.Flags.Contains(primitive.HeaderFlagWarning) == (len(f.Body.Warnings) > 0) && (f.Header.IsResponse ==> (f.Header.Flags.Contains(primitive.HeaderFlagTracing) == (f.Body.TracingId != nil))) && f.Header.OpCode == f.Body.Message.GetOpCode() && f.Header.IsResponse == f.Body.Message.IsResponse() && (f.Header.Flags.Contains(primitive.HeaderFlagCompressed) ==> (f.Header.OpCode != primitive.OpCodeStartup && f.Header.OpCode != primitive.OpCodeOptions && f.Header.OpCode != primitive.OpCodeReady))
+
+// everything of the header except the given flag bit is unchanged
+//@ spec headerKept(f *Frame, bit primitive.HeaderFlag) bool = f.Header == old(f.Header) && f.Body == old(f.Body) && f.Header.Flags &^ bit == old(f.Header.Flags) &^ bit && f.Header.IsResponse == old(f.Header.IsResponse) && f.Header.Version == old(f.Header.Version) && f.Header.StreamId == old(f.Header.StreamId) && f.Header.OpCode == old(f.Header.OpCode) && f.Header.BodyLength == old(f.Header.BodyLength)
+
+//@ func NewFrame
+//@   prop C20
+//@   ensures inv: frameInv(result)
+//@   ensures fields: result.Header.Version == version && result.Header.StreamId == streamId && same(result.Body.Message, message) && result.Body.TracingId == nil && isnil(result.Body.CustomPayload) && isnil(result.Body.Warnings)
+
+//@ func (*Frame).SetCustomPayload
+//@   prop C20
+//@   requires inv: frameInv(f)
+//@   ensures inv: frameInv(f)
+//@   ensures effect: same(f.Body.CustomPayload, customPayload) && f.Header.Flags.Contains(primitive.HeaderFlagCustomPayload) == (len(customPayload) > 0)
+//@   ensures frame: headerKept(f, primitive.HeaderFlagCustomPayload) && same(f.Body.Warnings, old(f.Body.Warnings)) && f.Body.TracingId == old(f.Body.TracingId) && same(f.Body.Message, old(f.Body.Message))
+
+//@ func (*Frame).SetWarnings
+//@   prop C20
+//@   requires inv: frameInv(f)
+//@   ensures inv: frameInv(f)
+//@   ensures effect: same(f.Body.Warnings, warnings) && f.Header.Flags.Contains(primitive.HeaderFlagWarning) == (len(warnings) > 0)
+//@   ensures frame: headerKept(f, primitive.HeaderFlagWarning) && same(f.Body.CustomPayload, old(f.Body.CustomPayload)) && f.Body.TracingId == old(f.Body.TracingId) && same(f.Body.Message, old(f.Body.Message))
+
+// SetTracingId is for responses (its documentation says so); on a response it keeps the invariant.
+
+//@ func (*Frame).SetTracingId
+//@   prop C20
+//@   nilable tracingId
+//@   requires inv: frameInv(f)
+//@   requires response: f.Header.IsResponse
+//@   ensures inv: frameInv(f)
+//@   ensures effect: f.Body.TracingId == tracingId && f.Header.Flags.Contains(primitive.HeaderFlagTracing) == (tracingId != nil)
+//@   ensures frame: headerKept(f, primitive.HeaderFlagTracing) && same(f.Body.CustomPayload, old(f.Body.CustomPayload)) && same(f.Body.Warnings, old(f.Body.Warnings)) && same(f.Body.Message, old(f.Body.Message))
+
+// RequestTracingId is for requests.
+
+//@ func (*Frame).RequestTracingId
+//@   prop C20
+//@   requires inv: frameInv(f)
+//@   requires request: !f.Header.IsResponse
+//@   ensures inv: frameInv(f)
+//@   ensures effect: f.Header.Flags.Contains(primitive.HeaderFlagTracing) == tracing
+//@   ensures frame: headerKept(f, primitive.HeaderFlagTracing) && same(f.Body.CustomPayload, old(f.Body.CustomPayload)) && same(f.Body.Warnings, old(f.Body.Warnings)) && same(f.Body.Message, old(f.Body.Message)) && f.Body.TracingId == old(f.Body.TracingId)
+
+//@ func (*Frame).SetCompress
+//@   prop C20
+//@   requires inv: frameInv(f)
+//@   ensures inv: frameInv(f)
+//@   ensures effect: f.Header.Flags.Contains(primitive.HeaderFlagCompressed) == (compress && f.Header.OpCode != primitive.OpCodeStartup && f.Header.OpCode != primitive.OpCodeOptions && f.Header.OpCode != primitive.OpCodeReady)
+//@   ensures frame: headerKept(f, primitive.HeaderFlagCompressed) && same(f.Body.CustomPayload, old(f.Body.CustomPayload)) && same(f.Body.Warnings, old(f.Body.Warnings)) && same(f.Body.Message, old(f.Body.Message)) && f.Body.TracingId == old(f.Body.TracingId)
